@@ -12,7 +12,8 @@ RULE = ("subvalue / subgraph / normalize (functions and methods) on plain dicts,
         "size; normalize values {1, 2, .5, -3}. Oracle: exact substitution in the reference polynomial (sympy results "
         "compared after numeric substitution of the symbols at three points). Non-trivial = model with >= 2 terms and "
         "a non-empty assignment / node set; distinct = digest of (function, type, terms, arguments)")
-TIERS = {"quick": {"shards": 8, "cases": 400}, "thorough": {"shards": 16, "cases": 10000}}
+TIERS = {"quick": {"shards": 8, "cases": 4000}, "thorough": {"shards": 16, "cases": 40000}}
+FLOOR_BASE = {"quick": 400, "thorough": 10000}    # case counts the floors below were calibrated for; the launcher scales them
 ALLT = ["dict", "DictArithmetic", "QUBO", "PUBO", "PCBO", "QUBOMatrix", "PUBOMatrix", "QUSO", "PUSO", "PCSO", "QUSOMatrix", "PUSOMatrix"]
 
 
